@@ -4,35 +4,11 @@ use super::*;
 #[allow(unused_imports)]
 use crate::__verif_common::*;
 
-/// secp256k1 group order, big-endian.
-const ORDER: [u8; 32] = [
-    0xff, 0xff, 0xff, 0xff, 0xff, 0xff, 0xff, 0xff, 0xff, 0xff, 0xff, 0xff, 0xff, 0xff, 0xff, 0xfe,
-    0xba, 0xae, 0xdc, 0xe6, 0xaf, 0x48, 0xa0, 0x3b, 0xbf, 0xd2, 0x5e, 0x8c, 0xd0, 0x36, 0x41, 0x41,
-];
-
-/// 0 < x < n on big-endian bytes.
+/// 0 < x < n on big-endian bytes (loop-free, see common.rs).
 fn scalar_in_range(x: &[u8]) -> bool {
-    let mut nonzero = false;
-    let mut i = 0;
-    while i < 32 {
-        if x[i] != 0 {
-            nonzero = true;
-        }
-        i += 1;
-    }
-    let mut below = false;
-    let mut i = 0;
-    while i < 32 {
-        if x[i] < ORDER[i] {
-            below = true;
-            break;
-        }
-        if x[i] > ORDER[i] {
-            break;
-        }
-        i += 1;
-    }
-    nonzero && below
+    let mut a = [0u8; 32];
+    a.copy_from_slice(&x[..32]);
+    scalar_in_range32(&a)
 }
 
 fn hex_val(c: u8) -> Option<u8> {
